@@ -73,12 +73,18 @@ class PythonToIrCompiler:
             for name, signature in imports.items():
                 self.gen_import(name, signature)
 
+        # First make all functions known, a function may call a function
+        # which is defined further down:
+        function_defs = []
         for df in x.body:
             self.logger.debug("Processing %s", df)
             if isinstance(df, ast.FunctionDef):
-                self.gen_function(df)
+                function_defs.append((df, self.declare_function(df)))
             else:
                 self.not_impl(df)
+
+        for df, ir_function in function_defs:
+            self.gen_function(df, ir_function)
 
         mod = self.builder.module
         irutils.verify_module(mod)
@@ -109,10 +115,8 @@ class PythonToIrCompiler:
         self.builder.module.add_external(ir_function)
         self.function_map[name] = ir_function, return_type, arg_types
 
-    def gen_function(self, df):
-        """Transform a python function into an IR-function"""
-        self.local_map = {}
-
+    def declare_function(self, df):
+        """Create the IR-function for a python function and register it."""
         function_name = df.name
         binding = ir.Binding.GLOBAL
         dbg_int = debuginfo.DebugBaseType("int", 8, 1)
@@ -142,9 +146,6 @@ class PythonToIrCompiler:
         self.function_map[function_name] = ir_function, return_type, arg_types
 
         self.logger.debug("Created function %s", ir_function)
-        self.builder.block_number = 0
-        self.builder.set_function(ir_function)
-
         dfi = debuginfo.DebugFunction(
             ir_function.name,
             SourceLocation("foo.py", 1, 1, 1),
@@ -152,6 +153,14 @@ class PythonToIrCompiler:
             dbg_args,
         )
         self.debug_db.enter(ir_function, dfi)
+        return ir_function
+
+    def gen_function(self, df, ir_function):
+        """Transform a python function into an IR-function"""
+        self.local_map = {}
+        return_type = self.function_map[df.name][1]
+        self.builder.block_number = 0
+        self.builder.set_function(ir_function)
 
         first_block = self.builder.new_block()
         self.builder.set_block(first_block)
@@ -544,6 +553,8 @@ class PythonToIrCompiler:
         name = expr.func.id
 
         # Lookup function and check types:
+        if name not in self.function_map:
+            self.error(expr, f"Unknown function {name}")
         ir_function, return_type, arg_types = self.function_map[name]
         self.logger.warning("Function arguments not type checked!")
 
